@@ -36,7 +36,13 @@ func (k msgServer) ClosePositions(goCtx context.Context, msg *types.MsgClosePosi
 			continue
 		}
 
-		err = k.CheckAndLiquidateUnhealthyPosition(ctx, &position, pool, ammPool, baseCurrency.Denom)
+		// each position is processed on its own cache context: a failure is only logged below,
+		// so it must not leave partial effects (e.g. a settled interest payment) behind
+		cacheCtx, write := ctx.CacheContext()
+		err = k.CheckAndLiquidateUnhealthyPosition(cacheCtx, &position, pool, ammPool, baseCurrency.Denom)
+		if err == nil {
+			write()
+		}
 		if err != nil {
 			// Add log about error or not liquidated
 			liqLog = append(liqLog, fmt.Sprintf("Position: Address:%s Id:%d cannot be liquidated due to err: %s", position.Address, position.Id, err.Error()))
@@ -57,7 +63,11 @@ func (k msgServer) ClosePositions(goCtx context.Context, msg *types.MsgClosePosi
 			continue
 		}
 
-		err = k.CheckAndCloseAtStopLoss(ctx, &position, pool, baseCurrency.Denom)
+		cacheCtx, write := ctx.CacheContext()
+		err = k.CheckAndCloseAtStopLoss(cacheCtx, &position, pool, baseCurrency.Denom)
+		if err == nil {
+			write()
+		}
 		if err != nil {
 			// Add log about error or not closed
 			closeLog = append(closeLog, fmt.Sprintf("Position: Address:%s Id:%d cannot be liquidated due to err: %s", position.Address, position.Id, err.Error()))
@@ -78,7 +88,11 @@ func (k msgServer) ClosePositions(goCtx context.Context, msg *types.MsgClosePosi
 			continue
 		}
 
-		err = k.CheckAndCloseAtTakeProfit(ctx, &position, pool, baseCurrency.Denom)
+		cacheCtx, write := ctx.CacheContext()
+		err = k.CheckAndCloseAtTakeProfit(cacheCtx, &position, pool, baseCurrency.Denom)
+		if err == nil {
+			write()
+		}
 		if err != nil {
 			// Add log about error or not closed
 			takeProfitLog = append(takeProfitLog, fmt.Sprintf("Position: Address:%s Id:%d cannot be liquidated due to err: %s", position.Address, position.Id, err.Error()))
